@@ -45,9 +45,9 @@ func (t *JSONFormatter) Write(values []octosql.Value) error {
 		}
 	}
 	t.buf = append(t.buf, '}', '\n')
-	t.w.Write(t.buf)
+	_, err := t.w.Write(t.buf)
 	t.buf = t.buf[:0]
-	return nil
+	return err
 }
 
 // ValueToJson appends the JSON text of the value to dst.
